@@ -8,7 +8,7 @@ class <type>                  ->  C c2m <cls> | sysv <cls> | aligned=..
 proto <ret|void> ; <t> ; ...  ->  P c2m <ret> <arg> ... | sysv <ret> <arg> ...
 merge                         ->  6x6 table of c2mMerge over N I S X U M, row-major
 ```
-enum <least> <greatest>         ->  E c2m <base> <size> | gcc <base> <size>
+enum <least> <greatest>         ->  E c2m <base> <size> ok=<accepted> | gcc <base> <size> ok=<accepted>
 type syntax (prefix): scalar name | `E:<least>:<greatest>` (enumerated type) | `A n T` | `S m* .` | `U m* .`;  member m: `p T` | `b w named T` | `a T`.
 member output: `bitpos:nbits` of every nameable member (through anonymous members), declaration order.
 -/
@@ -117,7 +117,7 @@ def step (toks : List String) : String :=
     | some mn, some mx =>
       let c := c2mEnumBase mn mx
       let g := gccEnumBase mn mx
-      s!"E c2m {showSc c} {c.size} | gcc {showSc g} {g.size}"
+      s!"E c2m {showSc c} {c.size} ok={b01 (c2mEnumOk mn mx)} | gcc {showSc g} {g.size} ok={b01 (gccEnumOk mn mx)}"
     | _, _ => "ERR parse"
   | "layout" :: rest =>
     match parseTy c2mEnumBase rest, parseTy gccEnumBase rest with
